@@ -4,6 +4,9 @@ import Larking.Expected.C11
 import Larking.Lemmas.Registry
 import Larking.Gen.TrieDel
 import Larking.Lemmas.TrieDel
+import Larking.Lemmas.TrieDelStable
+import Larking.Lemmas.TrieUK
+import Larking.Gen.Lexer
 /-
   C11 — Dispatch follows the live registration set.  The registry state machine of mux.go /
   handler.go as written (Model/Registry), for every sequence of RegisterService /
@@ -270,6 +273,71 @@ theorem delRule_false_means_gone (name : Nat) (n : Node) (h : delRule Gen.aliveC
     (ks : List KEdge) (verb : Bytes) (m : Meth) (hb : BoundIn n ks (some verb) m) : m.mid ≠ name :=
   delRule_none Gen.aliveCounts name n h ks verb m hb
 
+open Larking.Trie Larking.Lexer in
+/-- **Dispatch is stable across `DropConn`**: a request the router dispatches to a method other
+than the one whose rules are being removed is dispatched to the SAME method with the SAME
+captures after `delRule` ran for `name` any number of times — no other branch of the trie takes
+the request over, no pruning loses it.  `UK`: the association lists stand for Go maps (one entry
+per key); `hconv`: every capture converts (without it the code's variable loop, which a failed
+conversion ends, goes on to the next variable once the failing binding is gone). -/
+theorem dispatch_stable_across_deletions (conv : Nat → Bytes → Bool) (hconv : ∀ f t, conv f t = true)
+    (verb : Bytes) (name fuel : Nat) (t : Node) (huk : UK t) (toks : List Tok) (m : Meth) (caps : Caps)
+    (h : search conv verb t toks = .found m caps) (hne : m.mid ≠ name) :
+    search conv verb (delAll Gen.aliveCounts name fuel t) toks = .found m caps :=
+  delAll_stable Gen.aliveCounts alive_counts_every_binding_site conv hconv verb name fuel t huk toks m caps h hne
+
+open Larking.Trie Larking.Lexer in
+/-- … for every trie the registration functions build the key hypothesis is a theorem
+(`buildAll_UK`: the segment maps are strictly sorted association lists, which the sorted
+insert-or-replace preserves): **after any accepted registrations and any number of deletions, a
+request that went to a surviving method goes to the same method with the same captures.** -/
+theorem dispatch_stable_across_drop (conv : Nat → Bytes → Bool) (hconv : ∀ f t, conv f t = true)
+    (rs : List (Rule × Nat × (List Bytes → Option Nat))) (t : Node)
+    (hb : buildAll Gen.tokenCap rs .empty = .ok t)
+    (verb : Bytes) (name fuel : Nat) (toks : List Tok) (m : Meth) (caps : Caps)
+    (h : search conv verb t toks = .found m caps) (hne : m.mid ≠ name) :
+    search conv verb (delAll Gen.aliveCounts name fuel t) toks = .found m caps :=
+  dispatch_stable_across_deletions conv hconv verb name fuel t (buildAll_UK Gen.tokenCap rs t hb) toks m caps h hne
+
+open Larking.Trie Larking.Lexer in
+/-- … and a deletion creates no route: what was answered NotFound / MethodNotAllowed still is. -/
+theorem deletions_create_no_route (conv : Nat → Bytes → Bool) (hconv : ∀ f t, conv f t = true)
+    (verb : Bytes) (name fuel : Nat) (t : Node) (huk : UK t) (toks : List Tok) (e : SErr)
+    (h : search conv verb t toks = .fail e) :
+    ∃ e', search conv verb (delAll Gen.aliveCounts name fuel t) toks = .fail e' :=
+  delAll_fail Gen.aliveCounts alive_counts_every_binding_site conv hconv verb name fuel t huk toks e h
+
+open Larking.Trie in
+/-- the hypotheses are met: a trie with `GET /p/x` of method 1 and `GET /p` of method 2 has unique
+keys, and deleting method 1 leaves `GET /p` → method 2 where it was. -/
+example :
+    let mA : Trie.Meth := ⟨1, [], 0⟩
+    let mB : Trie.Meth := ⟨2, [], 1⟩
+    let x : Trie.Node := .mk [] [([71, 69, 84], mA)] none []
+    let pn : Trie.Node := .mk [([47, 120], x)] [([71, 69, 84], mB)] none []
+    let root : Trie.Node := .mk [([47, 112], pn)] [] none []
+    UK root ∧ delAll Gen.aliveCounts 1 3 root = .mk [([47, 112], .mk [] [([71, 69, 84], mB)] none [])] [] none [] := by
+  refine ⟨by simp [UK, UKSegs, UKVars, lookupSeg], by rfl⟩
+
+open Larking.Trie Larking.Lexer in
+/-- why `hconv` is there — the code's variable loop ENDS at a capture that does not convert
+(`GET /x` against `/{a}` of method 1 with an int field: refused), and once method 1 is gone the
+loop reaches `/{b}` of method 2: the same request is dispatched.  Both are within the property
+(the refused request matched no rule with convertible captures), but "what found nothing finds
+nothing" is false without the side condition. -/
+theorem unconvertible_capture_shadows_until_deleted :
+    let mA : Meth := ⟨1, [some 0], 0⟩
+    let mB : Meth := ⟨2, [some 1], 1⟩
+    let vA : Var := ⟨[97], [⟨.star, [42]⟩]⟩
+    let vB : Var := ⟨[98], [⟨.star, [42]⟩]⟩
+    let root : Node := .mk [] [] none
+      [(vA, .mk [] [([71, 69, 84], mA)] none []), (vB, .mk [] [([71, 69, 84], mB)] none [])]
+    let req : List Tok := [⟨.slash, [47]⟩, ⟨.path, [120]⟩, ⟨.eof, []⟩]
+    let conv : Nat → Bytes → Bool := fun f _ => f != 0
+    search conv [71, 69, 84] root req = .fail .conv ∧
+    search conv [71, 69, 84] (delAll Gen.aliveCounts 1 3 root) req = .found mB [(some 1, [120])] := by
+  exact ⟨by rfl, by rfl⟩
+
 /-- contrast — the code before fix `9c3d92b` (`alive` did not count `methodAll`): removing method
 1's `GET /p/x` prunes `/p`, which holds method 2's kind-`*` binding, and that route is lost. -/
 theorem alive_without_all_loses_route :
@@ -308,4 +376,8 @@ end Larking.Props.C11
 #print axioms Larking.Props.C11.delRule_keeps_other_methods
 #print axioms Larking.Props.C11.delRule_invents_nothing
 #print axioms Larking.Props.C11.delRule_false_means_gone
+#print axioms Larking.Props.C11.dispatch_stable_across_deletions
+#print axioms Larking.Props.C11.dispatch_stable_across_drop
+#print axioms Larking.Props.C11.deletions_create_no_route
+#print axioms Larking.Props.C11.unconvertible_capture_shadows_until_deleted
 #print axioms Larking.Props.C11.alive_without_all_loses_route
